@@ -8,7 +8,7 @@ CHECKS = {
  "C15": dict(
     design="DESIGN.md §3 C15",
     technique="model-based (stateful) property-based testing: Hypothesis-generated operation histories interpreted against a plain-dict reference model with an invariant after every step; exhaustive enumeration of short continuations; hash-seed replay in fresh subprocesses",
-    text="Exploration: histories of 4-30 derivation and evolution operations (primitive customisation, customize, child_attrs / child_attrs_all, Array / Iterable / unwrapped arrays, Mandatory, subclassing, append_field / insert_field) over a pool of models; after every step every pooled model (attributes, ordered fields, parents, validation verdicts on probe sets) is compared by value with a reference model updated by the documented effect of the step: the new type carries exactly the requested constraints, every other model is unchanged except for the documented propagation of added fields to customized variants; at the end field order in type info, schema sequence and XML/JSON output is compared and the history is replayed under three PYTHONHASHSEED values in fresh interpreters. All 2-step (thorough: 3-step) continuations over a 24-operation alphabet are enumerated exhaustively. Held on everything explored; not a proof.",
+    text="Exploration: histories of 4-30 derivation and evolution operations (primitive customisation, customize, child_attrs / child_attrs_all, database-mapping keywords, Array / Iterable / unwrapped arrays, Mandatory, subclassing, append_field / insert_field) over a pool of models; after every step every pooled model (attributes, ordered fields, parents, validation verdicts on probe sets) is compared by value with a reference model updated by the documented effect of the step: the new type carries exactly the requested constraints, every other model is unchanged except for the documented propagation of added fields to customized variants; at the end field order in type info, schema sequence and XML/JSON output is compared and the history is replayed under three PYTHONHASHSEED values in fresh interpreters. All 2-step (thorough: 3-step) continuations over a 24-operation alphabet are enumerated exhaustively. Held on everything explored; not a proof.",
     note="Trusted: the reference model (Machine) in pbt/props/c15.py. Adding fields to a customized variant (rather than to the class itself) is outside the domain: its effect on sibling variants is undocumented."),
  "C12": dict(
     design="DESIGN.md §3 C12",
@@ -28,22 +28,22 @@ CHECKS = {
  "C10": dict(
     design="DESIGN.md §3 C10",
     technique="mutation-based fuzzing driven by Hypothesis over generated valid requests (exhaustive prefix truncation, byte edits, structure-aware mutants); oracle: nothing escapes, reply is normal or a Client-family fault, no user function ran on a fault",
-    text="Exploration: generated valid requests for XmlDocument/Soap11/Soap12 (validator None/soft/lxml), JSON/YAML/MessagePack/msgpack-rpc (None/soft) and HttpRpc are truncated at every prefix, edited at byte level (flip, delete, insert, duplicate, swap, random bytes) and mutated structure-aware (type-specific nasty leaf values, deletions, duplications, unknown members, wrong kinds and nesting, broken SOAP envelopes, multiref cycles, YAML/JSON/msgpack syntax traps, msgpack-rpc arity/type errors), through the pipeline and WsgiApplication with Content-Type/charset variations; no exception may escape, the reply must be a normal response or a Client-family fault with the documented HTTP status class, and no user function may have run when a fault is returned. Held on everything explored; not a proof.",
+    text="Exploration: generated valid requests for XmlDocument/Soap11/Soap12 (validator None/soft/lxml), JSON/YAML/MessagePack/msgpack-rpc (None/soft) and HttpRpc are truncated at every prefix, edited at byte level (flip, delete, insert, duplicate, swap, random bytes) and mutated structure-aware (type-specific nasty leaf values incl. the range edges of the native types, custom strptime formats on date/time types, xsi:type garbage, deletions, duplications, unknown members, wrong kinds and nesting, broken SOAP envelopes, dangling / self / ancestor multiref hrefs, huge array indexes, YAML/JSON/msgpack syntax traps, msgpack-rpc arity/type errors), through the pipeline and WsgiApplication with Content-Type/charset variations (unknown and empty charsets, multipart/related with and without Content-ID); no exception may escape, the reply must be a normal response or a Client-family fault with the documented HTTP status class, and no user function may have run when a fault is returned. Held on everything explored; not a proof.",
     note="Trusted: the fault decoders of C09; user functions of this check never raise, so a Server fault is attributable to the request. Coverage-guided atheris fuzzing is not part of the registered commands."),
  "C13": dict(
     design="DESIGN.md §3 C13",
     technique="exhaustive grid enumeration + property-based testing (Hypothesis) with client aborts as injected faults; oracles: PEP 3333 event-log automaton, wsgiref.validate, byte-counting wsgi.input, context-close listeners",
-    text="Exploration: every request outcome class (success, fault classes, validation error, unknown method, malformed body, ?wsdl, injected WSDL failure, generator and user-set streams) x CONTENT_LENGTH spelling (absent, empty, smaller, equal, larger, over the limit, non-numeric) x max_content_length around the body length x block_length x chunked on/off x client abort after k chunks, for XmlDocument/Soap11/Json/HttpRpc: start_response exactly once before any chunk with str status/headers, bytes chunks, Content-Length equal to the body size, at most max_content_length and at most the declared length ever read, over-long requests answered with RequestTooLong without running user code, method_context_closed/wsgi_close exactly once and not before the body was handed over (or close() was called). Three grids are enumerated completely in both tiers with Hypothesis-generated cases on top. Held on everything explored; not a proof.",
+    text="Exploration: every request outcome class (success, fault classes, validation error, unknown method, malformed body, ?wsdl with and without a listener that edits the document, injected WSDL failure, generator and user-set streams) x CONTENT_LENGTH spelling (absent, empty, smaller, equal, larger, over the limit, non-numeric) x max_content_length around the body length x block_length x chunked on/off x client abort after k chunks, for XmlDocument/Soap11/Json/HttpRpc: start_response exactly once before any chunk with str status/headers, bytes chunks, Content-Length equal to the body size, at most max_content_length and at most the declared length ever read, over-long requests answered with RequestTooLong without running user code, method_context_closed/wsgi_close exactly once and not before the body was handed over (or close() was called). Three grids are enumerated completely in both tiers with Hypothesis-generated cases on top. Held on everything explored; not a proof.",
     note="Trusted: wsgiref.validate and the harness' single ordered event log."),
  "C04": dict(
     design="DESIGN.md §3 C04",
     technique="property-based testing with type-directed mutation of generated valid requests (Hypothesis); oracle: declared-type walk of everything the recording user function received, Client-family fault otherwise",
-    text="Exploration: valid requests from the C01/C02/C03 generators are mutated type-directedly - xsi:type retagging of any element with any class key of the interface (prefix bound, unbound or shadowed) under XmlDocument/Soap11/Soap12 x validator None/soft/lxml; JSON-kind swaps at any node, wrapper-key renames and wrong-arity positional lists under JSON/YAML/MessagePack/msgpack-rpc (soft); scalar-vs-object path confusions, duplicate keys and garbage values under HttpRpc (soft). Whenever the function runs, every argument and nested member must be None, of the declared native type, of a registered subclass of the declared class, or a list of such; otherwise the reply must be a Client-family fault and nothing may escape. Held on everything explored; not a proof.",
+    text="Exploration: valid requests from the C01/C02/C03 generators are mutated type-directedly - xsi:type retagging of any element with any class key of the interface (exhaustively element x key on one application for a quarter of the cases, so that earlier valid substitutions precede invalid ones; prefix bound, unbound or shadowed) under XmlDocument/Soap11/Soap12 x validator None/soft/lxml; JSON-kind swaps at any node (int and float distinguished), wrapper-key renames and wrong-arity positional lists under JSON/YAML/MessagePack/msgpack-rpc (soft); scalar-vs-object path confusions, duplicate keys and garbage values under HttpRpc (soft). Whenever the function runs, every argument and nested member must be None, of the declared native type, of a registered subclass of the declared class, or a list of such; otherwise the reply must be a Client-family fault and nothing may escape. Held on everything explored; not a proof.",
     note="Trusted: the native-type table in pbt/props/c04.py (NATIVE) and the spec-driven walk type_violation()."),
  "C17": dict(
     design="DESIGN.md §3 C17",
     technique="structure-aware fuzzing / property-based testing: attack constructs enumerated at every text and attribute position with Hypothesis-drawn parameters; oracles: strace (open/openat/connect) with per-subprocess control calibration, canary tokens, loop-back listener, rusage bounds",
-    text="Exploration: for XmlDocument/Soap11/Soap12 x validator None/soft/lxml x pipeline/WSGI/SOAP-with-attachments, 15 attack constructs (external general and parameter entities over file/http/ftp/relative, external DTD subsets, XInclude, internal entities, entity chains, quadratic blow-up, recursive entities, deep nesting, 1e5 attributes, huge text) are placed at every text and attribute-value position of three base requests; under strace no canary file may be opened and no connection attempted (a control open+connect in every subprocess must be visible), no canary token may reach user code or the reply, internal entities in text must not be expanded, bombs must end in Client.XMLSyntaxError, each document must stay under 2 s CPU / 256 MiB, and nothing may escape. Held on everything explored; not a proof.",
+    text="Exploration: for XmlDocument/Soap11/Soap12 x validator None/soft/lxml x pipeline/WSGI/SOAP-with-attachments, 15 attack constructs (external general and parameter entities over file/http/ftp/relative, external DTD subsets, XInclude, internal entities, entity chains, quadratic blow-up, recursive entities, deep nesting, 1e5 attributes, huge text) are placed at every text and attribute-value position of three base requests, in subprocesses where applications that opted in to the unsafe parser options have served a request first; under strace no canary file may be opened and no connection attempted (a control open+connect in every subprocess must be visible), no canary token may reach user code or the reply, internal entities in text must not be expanded, bombs must end in Client.XMLSyntaxError, each document must stay under 2 s CPU / 256 MiB, and nothing may escape. Held on everything explored; not a proof.",
     note="Trusted: strace seeing every open/openat/connect (calibrated per subprocess), libxml2's own amplification and depth limits as the definition of a bomb."),
  "C06": dict(
     design="DESIGN.md §3 C06",
@@ -53,7 +53,7 @@ CHECKS = {
  "C16": dict(
     design="DESIGN.md §3 C16",
     technique="property-based testing (Hypothesis) over generated class trees; oracles: exact runtime class + field equality at the server function, the spyne client and independent reference decoders; QName resolution of type markers inside the transmitted document",
-    text="Exploration: generated class trees (depth <=3, subclasses in the base's namespace), signatures taking/returning the base class, arrays and repeated members of it holding mixed subclasses, for XmlDocument/Soap11/Soap12 and JSON/YAML/MessagePack with ignore_wrappers=False, polymorphic on and off, in both directions: with polymorphism the receiver must rebuild the same subclass with equal fields and the type marker must resolve in the document and name a schema type; without it exactly the declared class's members travel; members appear ancestors-first. Held on everything explored; not a proof.",
+    text="Exploration: generated class trees (depth <=3, subclasses in the base's namespace), signatures taking/returning the base class or a customized variant of it, arrays and repeated members of it holding mixed subclasses, for XmlDocument/Soap11/Soap12 and JSON/YAML/MessagePack with ignore_wrappers=False, polymorphic on and off, in both directions: with polymorphism the receiver must rebuild the same subclass with equal fields and the type marker must resolve in the document and name a schema type; without it exactly the declared class's members travel; members appear ancestors-first. Held on everything explored; not a proof.",
     note="Trusted: pbt/ref_xml.py and pbt/ref_dict.py decoders. MessagePack requests come from the reference codec (spyne's msgpack client cannot be read back by its own server, recorded in DESIGN)."),
  "C18": dict(
     design="DESIGN.md §3 C18",
@@ -63,12 +63,12 @@ CHECKS = {
  "C03": dict(
     design="DESIGN.md §3 C03",
     technique="property-based testing (Hypothesis) with metamorphic permutation of query pairs; oracles: recording user function + independent reference flattening",
-    text="Exploration: generated signatures of primitives, primitive arrays, nested objects and arrays of objects are spelled as query strings by an independent reference flattener (a.b.c, a[0].b, repeated keys, percent-encoding), with order-preserving permutations of the pairs, contiguous and sparse indices, four hier_delim choices, strict_arrays on/off and validator None/soft, and sent through WsgiApplication GET; the recorded arguments must equal the sent values with arrays in index order, and a single primitive return must be sent as its exact bytes. Held on everything explored; not a proof.",
+    text="Exploration: generated signatures of primitives, primitive arrays, nested objects and arrays of objects are spelled as query strings by an independent reference flattener (a.b.c, a[0].b, repeated keys, percent-encoding), with order-preserving permutations of the pairs, contiguous and sparse indices, four hier_delim choices, strict_arrays on/off and validator None/soft, and sent through WsgiApplication GET; the recorded arguments must equal the sent values with arrays in index order, a single primitive return must be sent as its exact bytes, and the members of a declared out-header class set by the function must arrive as HTTP response headers (independently computed spellings); conversely object -> flat dict -> object must give an equal object (empty sequences of objects kept). Held on everything explored; not a proof.",
     note="Trusted: pbt/ref_flat.py, urllib.parse.quote. POST form bodies are not exercised (werkzeug is not installed)."),
  "C05": dict(
     design="DESIGN.md §3 C05",
     technique="property-based testing (Hypothesis) + exhaustive enumeration of fixed-width integer bounds; oracle: independent constraint predicate, cross-protocol agreement, user-function recorder",
-    text="Exploration: one constrained type from the facet lattice (nillable, min/max occurs, ge/gt/le/lt, fixed width, length, pattern, enumeration) at four positions (argument, nested field, array member, XML attribute) receives values on / just inside / just outside every bound, ill-formed and Python-only literals, explicit nulls, xsi:nil variants, absences and occurrence counts 0..max+2, rendered into XmlDocument, Soap11, JSON, YAML, MessagePack and HttpRpc with validator='soft'; accept <=> the function ran with the equal value, reject <=> it did not run and the fault code is in the Client family. Fixed-width bounds are enumerated exhaustively (all 8/16-bit values in the thorough tier). Held on everything explored; not a proof.",
+    text="Exploration: one constrained type from the facet lattice (nillable, min/max occurs, ge/gt/le/lt incl. an inclusive and an exclusive bound on the same side, fixed width, length, pattern, enumeration, default) at four positions (argument, nested field, array member, XML attribute) receives values on / just inside / just outside every bound, ill-formed and Python-only literals, explicit nulls, xsi:nil variants, absences and occurrence counts 0..max+2 (with the offending occurrence first, in the middle or last), rendered into XmlDocument, Soap11, JSON, YAML, MessagePack and HttpRpc with validator='soft'; accept <=> the function ran with the equal value, reject <=> it did not run and the fault code is in the Client family. Fixed-width bounds are enumerated exhaustively (all 8/16-bit values in the thorough tier). Held on everything explored; not a proof.",
     note="Trusted: the ten-line-per-facet reference predicate in pbt/props/c05.py (verdict/valid_value), Python re for the shared regex subset."),
  "C07": dict(
     design="DESIGN.md §3 C07",
@@ -78,12 +78,12 @@ CHECKS = {
  "C09": dict(
     design="DESIGN.md §3 C09",
     technique="property-based testing (Hypothesis); oracles: independent per-protocol fault decoders, documented HTTP status table, secret-token search in body and headers",
-    text="Exploration: user functions raise built-in and generated Fault classes with generated codes (Client/Server plus look-alike and free first segments, 0-3 sub-codes), Unicode messages and nested detail dicts, or non-Fault exceptions whose message, args, __str__, __repr__, class name and a frame local carry secret tokens, under eight output protocols through the pipeline and WSGI; the decoded fault must equal the raised one, the return value must be absent, the HTTP status must follow the documented table, and no token may occur in any encoding. Held on everything explored; not a proof.",
+    text="Exploration: user functions (plain, or generators raising before the first yield over WSGI) raise built-in and generated Fault classes (incl. generated subclasses of the dedicated 413/404/405/401 errors) with generated codes (Client/Server plus look-alike and free first segments, 0-3 sub-codes), Unicode messages and nested detail dicts, or non-Fault exceptions whose message, args, __str__, __repr__, class name and a frame local carry secret tokens, under eight output protocols through the pipeline, WSGI and spyne's own SOAP client; the decoded fault must equal the raised one, the return value must be absent, the HTTP status must follow the documented table, and no token may occur in any encoding. Held on everything explored; not a proof.",
     note="Trusted: the fault decoders in pbt/props/c09.py, stdlib json / PyYAML / msgpack / lxml as parsers."),
  "C02": dict(
     design="DESIGN.md §3 C02",
     technique="property-based testing (Hypothesis) over generated programs x inputs x configurations; oracles: recording user function + independent reference dict codec over stdlib json / PyYAML / msgpack",
-    text="Exploration: generated universes and wrapped signatures with conformant boundary-biased values (integers up to 2^200, 40-digit decimals, all Unicode planes, empty containers) are sent as JSON / YAML / MessagePack / msgpack-rpc documents built by an independent reference codec and third-party serialisers, for ignore_wrappers on/off, complex_as dict/list, validator None/soft, msgpack str/bin keys; recorded arguments and reference-decoded responses must equal what was sent/returned. Held on everything explored; not a proof.",
+    text="Exploration: generated universes and wrapped (plus, with ignore_wrappers=True, bare) signatures with conformant boundary-biased values (integers up to 2^200 and on the int64/uint64 edges, 40-digit decimals, all Unicode planes, empty containers, None entries in sequences, multi-chunk byte values) are sent as JSON / YAML / MessagePack / msgpack-rpc documents built by an independent reference codec and third-party serialisers, for ignore_wrappers on/off, complex_as dict/list, polymorphic on/off (declared-class values), validator None/soft, msgpack str/bin keys; the json/yaml helpers of spyne.util.dictdoc are checked with the same reference mapping; recorded arguments and reference-decoded responses must equal what was sent/returned. Held on everything explored; not a proof.",
     note="Trusted: stdlib json, PyYAML, msgpack (calibrated per case by a round-trip), pbt/ref_dict.py."),
  "C01": dict(
     design="DESIGN.md §3 C01",
